@@ -127,7 +127,7 @@ TABLES = {
 
 
 # ---- memory-layout invariance ------------------------------------------------------
-LAYOUTS = ["strided", "realpart", "column", "negstride", "fortran_row"]
+LAYOUTS = ["strided", "realpart", "column", "negstride", "fortran_row", "nplist", "pylist"]
 
 
 @st.composite
@@ -158,6 +158,10 @@ def layout_pair(case):
         base[:, 0] = -3.0
         base[:, 2] = 11.0
         view = base[:, 1]
+    elif lay == "nplist":
+        view = list(v)                      # a Python list of numpy scalars (samples appended one at a time)
+    elif lay == "pylist":
+        view = v.tolist()                   # a Python list of Python floats / complex numbers
     elif lay == "negstride":
         base = v[::-1].copy()
         view = base[::-1]
@@ -174,11 +178,11 @@ def layout_body(ctx, case, table, tol=1e-10):
     sig = {"fn": name, "layout": case["layout"]}
     ctx.sig_on_exception = sig
     ctx.cls(name, case["layout"], "complex" if case["complex"] else "real")
-    ctx.nontrivial(not view.flags["C_CONTIGUOUS"])
-    keep = view.copy()
+    ctx.nontrivial(isinstance(view, list) or not view.flags["C_CONTIGUOUS"])
+    keep = np.array(view)
     want = flat(f(flatcopy))
     got = flat(f(view))
-    ctx.check(np.array_equal(view, keep), "%s modified its input array" % name, sig=sig)
+    ctx.check(np.array_equal(np.array(view), keep), "%s modified its input" % name, sig=sig)
     ctx.check(len(got) == len(want), "%s: number of outputs depends on the memory layout of the input" % name, sig=sig)
     for j, (g, w) in enumerate(zip(got, want)):
         ctx.check(g.shape == w.shape, "%s output %d: shape depends on the memory layout of the input" % (name, j), sig=sig)
@@ -187,7 +191,7 @@ def layout_body(ctx, case, table, tol=1e-10):
         scale = float(np.max(np.abs(w)))
         err = float(np.max(np.abs(g - w))) if np.all(np.isfinite(g)) else float("inf")
         ctx.check(err <= tol * scale + 1e-300,
-                  "%s output %d depends on the memory layout of the input (%s view vs contiguous copy of the same values): max|d| = %.3g, scale %.3g"
+                  "%s output %d depends on the memory layout of the input (%s form vs contiguous array of the same values): max|d| = %.3g, scale %.3g"
                   % (name, j, case["layout"], err, scale), sig=sig)
 
 
